@@ -34,6 +34,18 @@ func genInt(r *rand.Rand, lo, hi int64) int64 {
 	return lo + int64(r.Uint64()%uint64(hi-lo+1))
 }
 
+var float64Bounds = []float64{0, 1, -1, 0.5, 1024, 1e9, -2.5e-3, math.MaxFloat64, -math.MaxFloat64,
+	math.SmallestNonzeroFloat64, math.Inf(1), math.Inf(-1)}
+
+// genFloat never returns NaN (reflect.DeepEqual could not compare it) and
+// never -0 (the "is default" test of a tagged float would be ambiguous).
+func genFloat(r *rand.Rand) float64 {
+	if r.Intn(2) == 0 {
+		return float64Bounds[r.Intn(len(float64Bounds))]
+	}
+	return r.NormFloat64() * 1e6
+}
+
 func genString(r *rand.Rand, o genOpts) string {
 	switch n := r.Intn(200); {
 	case n == 0 && !o.noMaxStrings:
@@ -103,7 +115,7 @@ func genValue(r *rand.Rand, f *Field, ver int16, o genOpts) any {
 	case KInt64:
 		return genInt(r, math.MinInt64, math.MaxInt64)
 	case KFloat64:
-		return r.NormFloat64()
+		return genFloat(r)
 	case KString:
 		return genString(r, o)
 	case KBytes:
